@@ -173,7 +173,7 @@ pub fn run(ctx: &Ctx) -> Report {
     for s in scenarios(ctx.quick()) {
         // quick: the schedule search goes one deviation deep for the kinds a copy could write through or into
         // (file, dangling link, directory); FIFO and link-to-file collisions run under the two base schedules
-        let deep = !ctx.quick() || s.name.contains("noclobber-file-at") || s.name.contains("noclobber-dangling-link-at") || s.name.contains("noclobber-dir-at") || !s.name.contains("-at-");
+        let deep = true; // every collision kind under every schedule with <= d deviations (affordable since the scratch moved to RAM)
         let s = Arc::new(s);
         for b in base_specs() {
             jobs.push((s.clone(), b, if deep { d } else { 0 }));
